@@ -1149,7 +1149,54 @@ const NEST_SHAPES: &[(&str, &str, &str, &str, &str, &str)] = &[
     ("block_configuration", "configuration c of e is for a ", "for b ", "", " end for ;", " end for ; end ;"),
     ("component_configuration", "configuration c of e is for a ", "for all : c use entity w . e ; for a ", "", " end for ; end for ;", " end for ; end ;"),
     ("process_if", "architecture a of e is begin process begin ", "if a then ", "", " end if ;", " end process ; end ;"),
+    // round 2: every way a primary / name / choice / association can contain itself
+    ("op_call", "package p is constant c : integer := ", "\"+\" ( ", "1", " , 2 )", " ; end ;"),
+    ("op_call_and", "package p is constant c : boolean := ", "\"and\" ( a , ", "b", " )", " ; end ;"),
+    ("string_index", "package p is constant c : character := ", "\"abc\" ( ", "1", " )", " ; end ;"),
+    ("char_prefix", "package p is constant c : integer := ", "'1' ( ", "1", " )", " ; end ;"),
+    ("literal_paren", "package p is constant c : integer := ", "1 ( ", "1", " )", " ; end ;"),
+    ("null_paren", "package p is constant c : t := ", "null ( ", "1", " )", " ; end ;"),
+    ("bitstring_paren", "package p is constant c : t := ", "x\"a\" ( ", "1", " )", " ; end ;"),
+    ("allocator", "package p is constant c : t := ", "new t ' ( ", "1", " )", " ; end ;"),
+    ("allocator_constraint", "package p is constant c : t := ", "new t ( 1 to f ( ", "1", " ) )", " ; end ;"),
+    ("attribute_parameter", "package p is constant c : integer := ", "a ' b ( ", "1", " )", " ; end ;"),
+    ("call_then_index", "package p is constant c : integer := ", "f ( ", "x", " ) ( i )", " ; end ;"),
+    ("slice", "package p is constant c : integer := ", "a ( 1 to f ( ", "2", " ) )", " ; end ;"),
+    ("named_association", "package p is constant c : integer := ", "f ( x => ", "1", " )", " ; end ;"),
+    ("choice_bar", "package p is constant c : t := ", "( 1 | ", "2", " => 0 )", " ; end ;"),
+    ("choice_named", "package p is constant c : t := ", "( a => ", "0", " )", " ; end ;"),
+    ("choice_range", "package p is constant c : t := ", "( 1 to f ( ", "2", " ) => 0 )", " ; end ;"),
+    ("conditional_in_paren", "architecture a of e is begin s <= ", "( x when c else ", "y", " )", " ; end ;"),
+    ("when_else_call", "architecture a of e is begin s <= ", "f ( '0' ) when g ( ", "a", " ) else '1'", " ; end ;"),
+    ("selected_call", "architecture a of e is begin with ", "f ( ", "x", " )", " select s <= '0' when others ; end ;"),
+    ("waveform_call", "architecture a of e is begin s <= '0' after ", "f ( ", "1 ns", " )", " ; end ;"),
+    ("target_aggregate", "architecture a of e is begin ", "( ", "a", " , b )", " <= x ; end ;"),
+    ("external_index", "package p is constant c : integer := ", "<< signal . a ( ", "1", " ) . b : bit >>", " ; end ;"),
+    ("external_in_call", "package p is constant c : integer := ", "f ( << constant . c : integer >> + ", "1", " )", " ; end ;"),
+    ("generic_subprogram", "package p is ", "procedure q generic ( ", "type t", " )", " ; end ;"),
+    ("generic_function_default", "package p is ", "function f generic ( function g ( a : t ) return t is ", "<>", " ) return t", " ; end ;"),
+    ("interface_default", "package p is procedure q ( a : t := ", "f ( ", "1", " )", " ) ; end ;"),
+    ("elsif_generate", "architecture a of e is begin ", "g : if a generate elsif b generate ", "", " end generate ;", " end ;"),
+    ("else_generate", "architecture a of e is begin ", "g : if a generate else generate ", "", " end generate ;", " end ;"),
+    ("case_generate_2", "architecture a of e is begin ", "g : case x generate when 1 => when others => ", "", " end generate ;", " end ;"),
+    ("block_generate", "architecture a of e is begin ", "b : block begin g : if c generate ", "", " end generate ; end block ;", " end ;"),
+    ("loop_if", "package body p is procedure q is begin ", "loop if a then ", "null ;", " end if ; end loop ;", " end ; end ;"),
+    ("record_constraint", "package p is subtype s is r ", "( e ", "( 1 to 2 )", " )", " ; end ;"),
+    ("record_constraint_2", "package p is subtype s is r ", "( e ( 1 to 2 ) , f ", "( 1 to 2 )", " )", " ; end ;"),
+    ("resolution_2", "package p is subtype s is ", "( f ", "g", " )", " t ; end ;"),
+    ("resolution_record", "package p is subtype s is ", "( a r , b ", "r", " )", " t ; end ;"),
+    ("range_call", "package p is subtype s is integer range ", "f ( ", "1", " )", " to 2 ; end ;"),
+    ("case_choice_call", "package body p is procedure q is begin case x is when ", "f ( ", "1", " )", " => null ; end case ; end ; end ;"),
+    ("procedure_call", "package body p is procedure q is begin ", "p ( ", "1", " )", " ; end ; end ;"),
+    ("generic_map_call", "architecture a of e is begin u : entity w . e generic map ( g => ", "f ( ", "1", " )", " ) ; end ;"),
+    ("port_map_conversion", "architecture a of e is begin u : entity w . e port map ( ", "f ( ", "a", " )", " => b ) ; end ;"),
+    ("subprogram_package_body", "package body p is ", "procedure q is package body r is ", "", " end ; begin end ;", " end ;"),
+    ("assert_report", "architecture a of e is begin assert c report ", "f ( ", "\"m\"", " )", " ; end ;"),
+    ("unary_mix", "package p is constant c : integer := ", "not ( - abs ", "1", " )", " ; end ;"),
+    ("physical_call", "package p is constant c : time := ", "f ( 2 ns * ", "1", " )", " ; end ;"),
 ];
+/// shapes added in round 2 run at these depths only
+const ROUND2_FROM: &str = "op_call";
 /// iterative chains: (prefix, link, suffix): prefix link^n suffix
 const CHAIN_SHAPES: &[(&str, &str, &str, &str)] = &[
     ("plus", "package p is constant c : integer := 1", " + 1", " ; end ;"),
@@ -1441,8 +1488,12 @@ fn gen(seed: u64, tier: &str, out_path: &str) {
         writeln!(f, "{}@2m @{}", class, recipe).unwrap();
     };
     // depth-major order: the expensive depths are consecutive lines, which the round-robin sharding spreads evenly
+    let round2_at = NEST_SHAPES.iter().position(|x| x.0 == ROUND2_FROM).unwrap();
     for n in [100000usize, 20000, 5000, 600, 200, 50] {
-        for (name, ..) in NEST_SHAPES.iter() {
+        for (k, (name, ..)) in NEST_SHAPES.iter().enumerate() {
+            if k >= round2_at && (n == 20000 || n == 600) {
+                continue;
+            }
             for cu in ["c", "u"] {
                 emit_recipe(format!("deep/{}/{}/{}", name, n, cu), format!("nest:{},{},{}", name, n, cu));
             }
